@@ -71,7 +71,9 @@ fn bptree_enum_impl(nseq: u64, len: usize, name: &str) {
 	// FIXED SHAPES (deterministic, both key orders): fill with n keys, delete a run / a stride of them so that leaves merge
 	// and redistribute, then compare point lookups, the complete forward scan and the complete BACKWARD scan with the map
 	for version_order in [false, true] {
-		for &(n, vlen, shape) in &[(300usize, 100usize, 0usize), (300, 100, 1), (300, 100, 2), (120, 1500, 0), (120, 1500, 1)] {
+		// shape 3 (free list with a FULL trunk page, then a root collapse): fill 40 keys, insert and delete one entry whose
+		// overflow chain has `chain` pages (1018..=1022 around TRUNK_PAGE_MAX_ENTRIES = 1020), delete all but 4 keys in ascending order
+		for &(n, vlen, shape, chain) in &[(300usize, 100usize, 0usize, 0usize), (300, 100, 1, 0), (300, 100, 2, 0), (120, 1500, 0, 0), (120, 1500, 1, 0), (40, 100, 3, 1018), (40, 100, 3, 1019), (40, 100, 3, 1020), (40, 100, 3, 1021), (40, 100, 3, 1022)] {
 			use crate::LSMIterator as _;
 			cases += 1;
 			let dir = tempdir::TempDir::new("verif_c18f").unwrap();
@@ -101,7 +103,19 @@ fn bptree_enum_impl(nseq: u64, len: usize, name: &str) {
 				}
 				model.insert(key(i), v);
 			}
+			if bad.is_none() && chain > 0 {
+				let big_key = key(9999);
+				let big = vec![0xabu8; 486 + chain * 4083 - 13];
+				match tree.insert(&big_key, &big) {
+					Err(e) => bad = Some(format!("insert of the {}-byte entry failed: {e}", big.len())),
+					Ok(()) => match tree.delete(&big_key) {
+						Ok(Some(_)) => {}
+						other => bad = Some(format!("delete of the large entry: {:?}", other.map(|o| o.map(|v| v.len())).map_err(|e| e.to_string()))),
+					},
+				}
+			}
 			let doomed: Vec<usize> = match shape {
+				3 => (0..n - 4).collect(),                      // all but the last four, ascending: the root collapses
 				0 => (n / 5..2 * n / 3).collect(),             // a contiguous run in the middle
 				1 => (0..n).filter(|i| i % 2 == 1).collect(),  // every other key
 				_ => (0..n).filter(|i| *i < n / 3 || *i >= n - n / 4).collect(), // both ends
@@ -179,7 +193,7 @@ fn bptree_enum_impl(nseq: u64, len: usize, name: &str) {
 			nontrivial += 1;
 			if let Some(b) = bad {
 				if failures.len() < 5 {
-					failures.push(format!("{{\"key_order\":\"{}\",\"fixed_shape\":\"{n} keys with {vlen}-byte values, delete pattern {shape} (0 = middle run, 1 = every other key, 2 = both ends)\",\"mismatch\":{:?}}}", if version_order { "version" } else { "bytewise" }, b));
+					failures.push(format!("{{\"key_order\":\"{}\",\"fixed_shape\":\"{n} keys with {vlen}-byte values, delete pattern {shape} (0 = middle run, 1 = every other key, 2 = both ends, 3 = all but four after freeing a {chain}-page overflow chain)\",\"mismatch\":{:?}}}", if version_order { "version" } else { "bytewise" }, b));
 				}
 			}
 		}
